@@ -29,6 +29,7 @@ Bad(e) ==
                        e.present_during, e.present_after, e.alias_after) THEN "outcome"
     ELSE IF ~e.hello_first THEN "response_before_connect_notify"
     ELSE IF e.off_started /\ ~e.stubborn /\ ~e.off_saw_cancel THEN "parked_handler_never_saw_cancel"
+    ELSE IF e.inline_started /\ ~e.inline_saw_cancel THEN "inline_handler_never_saw_cancel"
     ELSE ""
 Step == /\ l <= Len(Rec) /\ l' = l + 1
         /\ LET k == Bad(E) IN (k # "") => TLCSet(2, Append(TLCGet(2), <<l, k>>))
